@@ -101,7 +101,7 @@ impl Check for C16 {
     }
     fn plan(&self, tier: Tier) -> Plan {
         let quick = tier == Tier::Quick;
-        Plan { cases: if quick { 200 } else { 4000 }, max_tape: 8, min_slots: 20, max_slots: 150, shard_cases: 10, shard_timeout_s: if quick { 300 } else { 900 }, max_shrink_iters: 100, ..Plan::default() }
+        Plan { cases: if quick { 600 } else { 6000 }, max_tape: 8, min_slots: 20, max_slots: 150, shard_cases: 10, shard_timeout_s: if quick { 300 } else { 900 }, max_shrink_iters: 100, ..Plan::default() }
     }
     fn abort_is_violation(&self) -> bool {
         true
@@ -315,7 +315,7 @@ impl Check for C20 {
     }
     fn plan(&self, tier: Tier) -> Plan {
         let quick = tier == Tier::Quick;
-        Plan { cases: if quick { 160 } else { 3000 }, max_tape: 8, min_slots: 4, max_slots: 120, shard_cases: 10, shard_timeout_s: if quick { 300 } else { 900 }, max_shrink_iters: 6, ..Plan::default() }
+        Plan { cases: if quick { 480 } else { 4800 }, max_tape: 8, min_slots: 4, max_slots: 120, shard_cases: 10, shard_timeout_s: if quick { 300 } else { 900 }, max_shrink_iters: 6, ..Plan::default() }
     }
     fn abort_is_violation(&self) -> bool {
         true
@@ -802,7 +802,7 @@ impl Check for C15 {
     }
     fn plan(&self, tier: Tier) -> Plan {
         let quick = tier == Tier::Quick;
-        Plan { cases: if quick { 160 } else { 3000 }, max_tape: 6, min_slots: 5, max_slots: 60, shard_cases: 8, shard_timeout_s: if quick { 300 } else { 900 }, max_shrink_iters: 100, ..Plan::default() }
+        Plan { cases: if quick { 400 } else { 4000 }, max_tape: 6, min_slots: 5, max_slots: 60, shard_cases: 8, shard_timeout_s: if quick { 300 } else { 900 }, max_shrink_iters: 100, ..Plan::default() }
     }
     fn abort_is_violation(&self) -> bool {
         true
